@@ -99,6 +99,24 @@ def reader_map(func):
     results = {norm(n.value) for n in walk_no_nested(func.node)
                if isinstance(n, ast.Return) and
                isinstance(n.value, ast.Name)}
+    # table form: `if ch in TABLE: rv += TABLE[ch]` with TABLE a module-level
+    # dict constant of single-character escapes
+    for n in walk_no_nested(func.node):
+        if isinstance(n, ast.If) and isinstance(n.test, ast.Compare) and \
+                norm(n.test.left) in chars and len(n.test.ops) == 1 and \
+                isinstance(n.test.ops[0], ast.In) and \
+                isinstance(n.test.comparators[0], ast.Name):
+            tname = n.test.comparators[0].id
+            tnode = func.module.consts.get(tname)
+            uses = any(isinstance(x, ast.AugAssign) and
+                       norm(x.target) in results and
+                       isinstance(x.value, ast.Subscript) and
+                       norm(x.value.value) == tname and
+                       norm(x.value.slice) in chars for x in n.body)
+            if isinstance(tnode, ast.Dict) and uses:
+                for k, v in zip(tnode.keys, tnode.values):
+                    if const_str(k) is not None and const_str(v) is not None:
+                        out[const_str(k)] = const_str(v)
     for n in walk_no_nested(func.node):
         if isinstance(n, ast.If) and isinstance(n.test, ast.Compare) and \
                 norm(n.test.left) in chars and len(n.test.ops) == 1:
